@@ -478,9 +478,9 @@ def make_op(rng, schema, kind, writer):
     raise ValueError(kind)
 
 
-ATLAS_KINDS = ["add_table", "add_column", "add_index", "add_column_rebuild", "drop_table", "drop_col", "drop_col", "drop_virtual", "mixed"]
+ATLAS_KINDS = ["add_table", "add_column", "add_index", "add_column_rebuild", "drop_table", "drop_col", "drop_col", "drop_virtual", "mixed", "mixed_big"]
 HAND_KINDS = ["add_table", "add_column", "add_index", "add_column_rebuild", "drop_table", "drop_col_alter", "drop_col_rebuild", "drop_col_rebuild",
-              "drop_col_variant", "drop_virtual", "temp_table", "temp_table", "temp_column", "replace_table", "mixed", "mixed_additive_temp"]
+              "drop_col_variant", "drop_virtual", "temp_table", "temp_table", "temp_column", "replace_table", "mixed", "mixed_additive_temp", "mixed_big"]
 
 
 def op_label(op):
@@ -524,6 +524,16 @@ def gen_evolution(rng, nsteps=6):
                 pool = [k for k in kinds if not k.startswith("mixed")]
                 for k in rng.sample(pool, min(len(pool), rng.choice([2, 2, 3]))):
                     op = make_op(rng, cur, k, writer)
+                    if op is not None and compatible(ops, op):
+                        apply_op(cur, op)
+                        ops.append(op)
+            elif kind == "mixed_big":
+                # a long file (> 10 statements): additive filler first, the destructive operations late in the file
+                pool = [k for k in kinds if k.startswith("drop_") or k == "replace_table"]
+                for k in ["add_table", "add_table", "add_table", rng.choice(["add_index", "add_column"]), "add_table"] + rng.sample(pool, 2) + ["add_index"]:
+                    op = make_op(rng, cur, k, writer)
+                    if op is not None and k == "add_table" and not op["table"].indexes:
+                        op["table"].indexes.append(Index("idx_%s_id" % op["table"].name, ["id"], False))
                     if op is not None and compatible(ops, op):
                         apply_op(cur, op)
                         ops.append(op)
@@ -579,13 +589,13 @@ def file_class(ops):
             destructive = True
     dropc = [o for o in ops if o["op"].startswith("drop_cols")]
     if labs <= ADDITIVE:
-        return "additive"
+        return "additive:rebuild" if "add_column_rebuild" in labs else "additive"
     if labs <= TEMPORARY:
         return "temporary"
     if labs <= (ADDITIVE | TEMPORARY):
         return "additive+temporary"
     if len(ops) > 1:
-        return "mixed"
+        return "mixed_big" if len(ops) >= 6 else "mixed"
     o = ops[0]
     if dropc:
         if o.get("vonly"):
